@@ -29,6 +29,11 @@ var props = map[string][]family{
 	"C06": {famRoundtrip},
 	"C13": {famPattern},
 	"C15": {famTwins},
+	"C07": {famConc},
+	"C07R": {famStress},
+	"C12": {famAlias},
+	"C17": {famPanic},
+	"C18": {famAlloc},
 }
 
 func main() {
